@@ -538,8 +538,28 @@ def extract_hook_geom(path, fn_name, helper_names):
     return {"host": host, "hook": info[1], "tier": info[2], "wrapper": info[3], "fn": fn_name}, ex.res
 
 
+def _created_flag(st, self_name):
+    """`<name> = not self.out_profile` -> name (the out profile does not exist yet: it will be created by `super().init_solve`)"""
+    if isinstance(st, ast.Assign) and len(st.targets) == 1 and isinstance(st.targets[0], ast.Name) \
+            and isinstance(st.value, ast.UnaryOp) and isinstance(st.value.op, ast.Not) \
+            and _is_self_attr(st.value.operand, self_name, "out_profile"):
+        return st.targets[0].id
+    return None
+
+
+def _guarded_body(st, flags):
+    """`if <flag>: <one statement>` (no else) with <flag> a name assigned by `_created_flag` -> the statement"""
+    if isinstance(st, ast.If) and isinstance(st.test, ast.Name) and st.test.id in flags and not st.orelse:
+        body = [b for b in st.body if not _docstring(b)]
+        if len(body) == 1:
+            return body[0]
+    return None
+
+
 def extract_init_solve_seed(path, class_name):
-    """`self.out_profile.cross_section = self.usable_cross_section` in `init_solve` -> (target path, source path, after super call)"""
+    """`self.out_profile.cross_section = self.usable_cross_section` in `init_solve` -> ([(target path, source path, after
+    super call)], lineno, on creation only); on creation only = every seed sits in `if created:` where
+    `created = not self.out_profile` was taken BEFORE the super call (the out profile is created by that call)"""
     tree = _parse(path)
     cls = _find_class(tree, class_name)
     fn = _find_func(cls.body, "init_solve") if cls is not None else None
@@ -547,10 +567,23 @@ def extract_init_solve_seed(path, class_name):
         raise Untranslatable(f"{class_name}.init_solve not found")
     self_name = fn.args.args[0].arg
     seeds = []
+    guarded = []
+    flags = {}
     super_called = False
     for st in fn.body:
         if _docstring(st):
             continue
+        flag = _created_flag(st, self_name)
+        if flag is not None:
+            flags[flag] = super_called             # taken after the super call it is never true
+            continue
+        inner = _guarded_body(st, flags)
+        if inner is not None and isinstance(inner, ast.Assign) and len(inner.targets) == 1:
+            t, v = pyexpr.attr_path(inner.targets[0]), pyexpr.attr_path(inner.value)
+            if t and v and t[0] == self_name and v[0] == self_name:
+                seeds.append((".".join(t[1:]), ".".join(v[1:]), super_called))
+                guarded.append(not flags[st.test.id])
+                continue
         if isinstance(st, ast.Expr) and isinstance(st.value, ast.Call):
             f = st.value.func
             if isinstance(f, ast.Attribute) and f.attr == "init_solve" and isinstance(f.value, ast.Call) \
@@ -561,9 +594,12 @@ def extract_init_solve_seed(path, class_name):
             t, v = pyexpr.attr_path(st.targets[0]), pyexpr.attr_path(st.value)
             if t and v and t[0] == self_name and v[0] == self_name:
                 seeds.append((".".join(t[1:]), ".".join(v[1:]), super_called))
+                guarded.append(False)
                 continue
         raise Untranslatable("statement in init_solve: " + ast.unparse(st)[:80])
-    return seeds, fn.lineno
+    if len(set(guarded)) > 1:
+        raise Untranslatable("init_solve: some seeds are guarded by `created`, others are not")
+    return seeds, fn.lineno, bool(guarded and guarded[0])
 
 
 # ---- the memo of the contour lines and its invalidation (-> OutCS.Cache, Gen/C08Cache.lean) ----------------------------
@@ -763,7 +799,8 @@ def extract_solve_loop(path, class_name="Unit"):
 
 def extract_init_solve_ops(path, class_name):
     """`BaseRollPass.init_solve` statement by statement: "super" | "reset" (`self._contour_lines = None`) |
-    "seed" (`self.out_profile.cross_section = self.usable_cross_section`)"""
+    "seed" (`self.out_profile.cross_section = self.usable_cross_section`) | "created" (`created = not self.out_profile`) |
+    "seedIfCreated" (`if created: <seed>`)"""
     tree = _parse(path)
     cls = _find_class(tree, class_name)
     fn = _find_func(cls.body, "init_solve") if cls is not None else None
@@ -771,8 +808,22 @@ def extract_init_solve_ops(path, class_name):
         raise Untranslatable(f"{class_name}.init_solve not found")
     self_name = fn.args.args[0].arg
     ops = []
+    flags = set()
     for st in fn.body:
         if _docstring(st):
+            continue
+        flag = _created_flag(st, self_name)
+        if flag is not None:
+            if flags:
+                raise Untranslatable("init_solve: more than one `... = not self.out_profile`")
+            flags.add(flag)
+            ops.append("created")
+            continue
+        inner = _guarded_body(st, flags)
+        if inner is not None and isinstance(inner, ast.Assign) and len(inner.targets) == 1 \
+                and _is_self_attr(inner.targets[0], self_name, "out_profile", "cross_section") \
+                and _is_self_attr(inner.value, self_name, "usable_cross_section"):
+            ops.append("seedIfCreated")
             continue
         if isinstance(st, ast.Expr) and isinstance(st.value, ast.Call):
             f = st.value.func
